@@ -7,9 +7,21 @@
 // broker to its event handler are withheld and enter the node (Node.HandlePublication) only when the model
 // delivers them.  A reference client implemented here (same rules as the model's client) drives the real command
 // path (subscribe commands with type map / phase / cursor / offset / epoch / recover) and builds its map from the
-// decoded frames.  After every step at which the subscriber is not parked the frames are projected to the model's
-// `out` and compared; the monitors are evaluated on the REAL frames, and at every quiescent point the reference
-// client's map is compared with the real broker's ReadState restricted by the filter (C22).
+// decoded frames; its requests are computed from the REAL replies.  Key expiry, stream expiry and the periodic
+// position check are time driven in the code; they are triggered through the public API plus overlay/mapsub (which
+// runs the bodies of the sweeps / one connection tick).
+//
+// After every step at which the subscriber is not parked the frames are projected to the model's `out` and compared;
+// the monitors (C16M: nothing excluded by the filter is delivered, changed server filter => unsubscribe 2502;
+// C22R: recovered=true carries every admitted change) are evaluated on the REAL frames, and at every quiescent point
+// the reference client's map is compared with the real broker's ReadState restricted by the filter (C22).
+//
+// When the real code leaves the model (frames or gate differ) the harness stops following the model: nothing is
+// parked any more, the reference client finishes the protocol on the real replies, everything withheld is
+// delivered, the position check runs if the position is not the stream's, and the REAL outcome is judged:
+// VIOLATION if a monitor fails or the client ends silently diverged, DRIFT otherwise.
+//
+// Mode `probe` asks the real code which stream-read semantics it has (see fam/mapsub.py).
 package main
 
 import (
